@@ -25,6 +25,8 @@ use tokio::{
 
 #[derive(Debug)]
 pub struct Shared {
+    /// connection id (for `on_connect_ext` data)
+    pub id: u32,
     pub t0: Instant,
     // ---- inbound: peer -> server
     pub rx: VecDeque<Bytes>,
@@ -105,6 +107,7 @@ pub struct Peer(pub Rc<RefCell<Shared>>);
 
 pub fn pair() -> (SimIo, Peer) {
     let sh = Rc::new(RefCell::new(Shared {
+        id: 0,
         t0: Instant::now(),
         rx: VecDeque::new(),
         rx_eof: false,
